@@ -1224,3 +1224,28 @@ func (p *Prog) isSentinelError(e ast.Expr) bool {
 	}
 	return isErrType(v.Type())
 }
+
+// FieldValues: the values f gives to "Struct.field", whether as a keyed element of a
+// composite literal or by assigning to a selector of that field (x.field = v,
+// including through an alias such as b := &x.embedded; b.field = v).
+func (p *Prog) FieldValues(f *Func, field string) []ast.Expr {
+	var out []ast.Expr
+	walkBody(f, func(n ast.Node) bool {
+		switch x := n.(type) {
+		case *ast.KeyValueExpr:
+			if p.keyIsField(x.Key, field) {
+				out = append(out, x.Value)
+			}
+		case *ast.AssignStmt:
+			if len(x.Lhs) == len(x.Rhs) {
+				for i, l := range x.Lhs {
+					if sel, ok := unparen(l).(*ast.SelectorExpr); ok && p.IsField(sel, field) {
+						out = append(out, x.Rhs[i])
+					}
+				}
+			}
+		}
+		return true
+	})
+	return out
+}
